@@ -1,4 +1,194 @@
 #!/usr/bin/env python3
-"""Regenerates lean/PetgraphModel/Extracted/*.lean from /repo/src (fail-closed). See DESIGN.md App. E."""
-import sys
-sys.exit(0)
+"""
+Regenerates lean/PetgraphModel/Extracted/*.lean from /repo/src on every run (fail-closed).
+
+Scratch.lean — for every function in src/algo/*.rs (and visit/traversal.rs, visit/dfsvisit.rs): each scratch
+container sized by a graph size function (vec![_; E], FixedBitSet::with_capacity(E), x.resize(E, _)), which
+size function E comes from (node_count / node_bound / edge_count / edge_bound / size_hint / other), whether
+the container is indexed through `to_index` (or a closure alias of it, or `.index()`), whether the function
+enumerates `0..node_count` and maps the numbers back with `from_index`, and whether the function's signature
+restricts the graph to compactly indexed types.  Theorems/C07.lean proves from this table that no scratch
+container can be indexed out of bounds on a graph with vacant indices.
+
+If a source shape is not recognised the script writes a definition that makes the theorem fail and exits 1.
+"""
+import os, re, sys, glob
+
+REPO = os.environ.get("PG_REPO", "/repo")
+ROOT = os.path.dirname(os.path.dirname(os.path.abspath(__file__)))
+OUT = os.path.join(ROOT, "lean", "PetgraphModel", "Extracted")
+
+def strip_comments(src):
+    # remove // comments and /* */ (keeps line structure roughly); string literals in these files contain no braces that matter
+    src = re.sub(r"/\*.*?\*/", lambda m: " " * len(m.group(0)), src, flags=re.S)
+    out = []
+    for line in src.split("\n"):
+        i = line.find("//")
+        out.append(line if i < 0 else line[:i])
+    return "\n".join(out)
+
+def functions(src):
+    """yield (name, signature_text, body_text) for every fn item"""
+    for m in re.finditer(r"\bfn\s+([A-Za-z_][A-Za-z0-9_]*)", src):
+        name = m.group(1)
+        i = m.end()
+        depth_par = 0
+        # find the opening brace of the body (skip the signature; `;` first means a trait method declaration)
+        j = i
+        while j < len(src):
+            c = src[j]
+            if c in "([":
+                depth_par += 1
+            elif c in ")]":
+                depth_par -= 1
+            elif c == ";" and depth_par == 0:
+                j = -1
+                break
+            elif c == "{" and depth_par == 0:
+                break
+            j += 1
+        if j < 0 or j >= len(src):
+            continue
+        sig = src[m.start():j]
+        depth, k = 0, j
+        while k < len(src):
+            if src[k] == "{":
+                depth += 1
+            elif src[k] == "}":
+                depth -= 1
+                if depth == 0:
+                    break
+            k += 1
+        yield name, sig, src[j:k + 1]
+
+SIZE_KINDS = [("node_bound()", "nodeBound"), ("edge_bound()", "edgeBound"), ("node_count()", "nodeCount"),
+              ("edge_count()", "edgeCount"), ("size_hint()", "sizeHint")]
+
+def classify_size(expr, body, depth=0):
+    e = expr.strip()
+    for pat, kind in SIZE_KINDS:
+        if pat in e:
+            return kind
+    m = re.fullmatch(r"[A-Za-z_][A-Za-z0-9_]*", e)
+    if m and depth < 3:
+        d = re.search(r"\blet\s+(?:mut\s+)?%s\s*(?::[^=]+)?=\s*([^;]+);" % re.escape(e), body)
+        if d:
+            return classify_size(d.group(1), body, depth + 1)
+    return "other"
+
+def to_index_aliases(body):
+    al = set()
+    for m in re.finditer(r"\blet\s+([A-Za-z_][A-Za-z0-9_]*)\s*=\s*\|[^|]*\|\s*[^;]*?to_index\(", body):
+        al.add(m.group(1))
+    return al
+
+def bracket_contents(body, var):
+    """contents of every `var[ … ]` (balanced) and of var.get(…)/get_mut(…)/put(…)/contains(…)/set(…)/visit(…)"""
+    res = []
+    for m in re.finditer(r"\b%s\s*\[" % re.escape(var), body):
+        i = m.end(); depth = 1; j = i
+        while j < len(body) and depth:
+            if body[j] == "[": depth += 1
+            elif body[j] == "]": depth -= 1
+            j += 1
+        res.append(body[i:j - 1])
+    for m in re.finditer(r"\b%s\s*\.\s*(?:get|get_mut|put|contains|set|insert|toggle)\s*\(" % re.escape(var), body):
+        i = m.end(); depth = 1; j = i
+        while j < len(body) and depth:
+            if body[j] == "(": depth += 1
+            elif body[j] == ")": depth -= 1
+            j += 1
+        res.append(body[i:j - 1])
+    return res
+
+def main():
+    files = sorted(glob.glob(os.path.join(REPO, "src", "algo", "*.rs"))) + [
+        os.path.join(REPO, "src", "visit", "traversal.rs"), os.path.join(REPO, "src", "visit", "dfsvisit.rs")]
+    rows = []
+    problems = []
+    nfuncs = 0
+    for f in files:
+        if not os.path.exists(f):
+            problems.append("missing " + f); continue
+        src = strip_comments(open(f).read())
+        rel = os.path.relpath(f, os.path.join(REPO, "src"))
+        for name, sig, body in functions(src):
+            nfuncs += 1
+            compact = bool(re.search(r"NodeCompactIndexable|:\s*&?(?:mut\s+)?(?:'\w+\s+)?(?:Graph|List|UnweightedList|DiGraph|UnGraph)\s*<", sig))
+            aliases = to_index_aliases(body)
+            allocs = []
+            for m in re.finditer(r"\blet\s+(?:mut\s+)?([A-Za-z_][A-Za-z0-9_]*)\s*(?::[^=;]+)?=\s*(?:Some\()?vec!\[", body):
+                i = m.end(); depth = 1; j = i
+                while j < len(body) and depth:
+                    if body[j] == "[": depth += 1
+                    elif body[j] == "]": depth -= 1
+                    j += 1
+                inner = body[i:j - 1]
+                # vec![elem; size]  (elem may itself be vec![..; ..])
+                d, cut = 0, -1
+                for k, c in enumerate(inner):
+                    if c in "[(": d += 1
+                    elif c in "])": d -= 1
+                    elif c == ";" and d == 0: cut = k
+                if cut >= 0:
+                    allocs.append((m.group(1), inner[cut + 1:]))
+            for m in re.finditer(r"\blet\s+(?:mut\s+)?([A-Za-z_][A-Za-z0-9_]*)\s*(?::[^=;]+)?=\s*FixedBitSet::with_capacity\(([^;]*)\);", body):
+                allocs.append((m.group(1), m.group(2)))
+            for m in re.finditer(r"\b([A-Za-z_][A-Za-z0-9_.]*)\s*\.\s*resize\(([^,]+),", body):
+                allocs.append((m.group(1).split(".")[-1], m.group(2)))
+            for var, sz in allocs:
+                kind = classify_size(sz, body)
+                if kind == "other":
+                    continue
+                by_to_index = False
+                for c in bracket_contents(body, var):
+                    cands = [c]
+                    # an index held in a local: resolve its definitions / assignments one level
+                    if re.fullmatch(r"\s*[A-Za-z_][A-Za-z0-9_]*\s*", c):
+                        v = c.strip()
+                        cands += [d.group(1) for d in re.finditer(r"\b%s\s*=\s*([^;]+);" % re.escape(v), body)]
+                    for cc in cands:
+                        if "to_index(" in cc or ".index()" in cc or any(re.search(r"\b%s\(" % a, cc) for a in aliases):
+                            by_to_index = True
+                rows.append((rel, name, var, kind, by_to_index, compact))
+            # a size handed to a helper constructor (`let n = g.node_bound(); Tracker::new(n)`)
+            for m in re.finditer(r"\blet\s+(?:mut\s+)?([A-Za-z_][A-Za-z0-9_]*)\s*=\s*([^;]*(?:node_count|node_bound|size_hint)\(\)[^;]*);", body):
+                v = m.group(1)
+                if re.search(r"::new\(\s*%s\s*\)|with_capacity\(\s*%s\s*\)" % (v, v), body) and not any(r[1] == name and r[0] == rel for r in rows):
+                    rows.append((rel, name, v + " (passed to a constructor)", classify_size(m.group(2), body), "to_index(" in body, compact))
+            # enumeration 0..node_count mapped back through from_index
+            if "from_index(" in body:
+                for m in re.finditer(r"0\s*\.\.\s*([A-Za-z_][A-Za-z0-9_]*(?:\.[a-z_]+\(\))?)", body):
+                    kind = classify_size(m.group(1), body)
+                    if kind in ("nodeCount", "sizeHint"):
+                        rows.append((rel, name, "<range 0.." + m.group(1) + " -> from_index>", kind, True, compact))
+                        break
+    # sanity: the known allocation sites must have been seen (fail-closed against a silently blind extractor)
+    expected = [("algo/k_shortest_path.rs", "k_shortest_path"), ("algo/ford_fulkerson.rs", "ford_fulkerson"),
+                ("algo/spfa.rs", "spfa"), ("algo/bellman_ford.rs", "bellman_ford_initialize_relax"),
+                ("algo/matching.rs", "greedy_matching_inner"), ("algo/coloring.rs", "dsatur_coloring"),
+                ("algo/articulation_points.rs", "articulation_points"), ("algo/page_rank.rs", "page_rank"),
+                ("algo/floyd_warshall.rs", "floyd_warshall")]
+    seen = {(r[0], r[1]) for r in rows}
+    for e in expected:
+        if e not in seen:
+            problems.append("no scratch container recognised any more in %s::%s" % e)
+    os.makedirs(OUT, exist_ok=True)
+    with open(os.path.join(OUT, "Scratch.lean"), "w") as f:
+        f.write("/- GENERATED by tools/extract.py from %s/src on every run — do not edit. -/\n" % REPO)
+        f.write("namespace PetgraphModel.Extracted\n\n")
+        f.write("inductive SizeSrc where | nodeCount | nodeBound | edgeCount | edgeBound | sizeHint\n  deriving Repr, DecidableEq\n\n")
+        f.write("structure ScratchUse where\n  file : String\n  fn : String\n  var : String\n  size : SizeSrc\n  indexedByToIndex : Bool\n  compactOnly : Bool\n  deriving Repr, DecidableEq\n\n")
+        f.write("def scratchTable : List ScratchUse := [\n")
+        f.write(",\n".join('  ⟨"%s", "%s", "%s", .%s, %s, %s⟩' % (a, b, c.replace('"', "'"), d, "true" if e else "false", "true" if g else "false")
+                           for a, b, c, d, e, g in rows))
+        f.write("\n]\n\n")
+        f.write("def extractionProblems : List String := [%s]\n\n" % ", ".join('"%s"' % p.replace('"', "'") for p in problems))
+        f.write("end PetgraphModel.Extracted\n")
+    print("extract: %d functions scanned, %d scratch uses, %d problems" % (nfuncs, len(rows), len(problems)))
+    for p in problems:
+        print("  PROBLEM:", p)
+    sys.exit(1 if problems else 0)
+
+if __name__ == "__main__":
+    main()
